@@ -2,6 +2,7 @@
 From Coq Require Import ZArith List Bool Lia.
 From JL.std Require Import GoBase GoFloat GoStrconv GoTime GoVal GoBase64.
 From JL.gen Require Import CastGen.
+From JL.proofs Require Import CastTactics.
 Import ListNotations.
 Open Scope Z_scope.
 
@@ -60,18 +61,7 @@ Definition sentinel_of (k : ikind) : sentinel :=
 Section CastBinary.
   Context (O : oracles).
 
-  Ltac unfold_cast :=
-    lazy beta iota delta [To ToBinary ToBinary_body ToInt ToInt64 ToInt32 ToInt16 ToInt8
-      ToUint ToUint64 ToUint32 ToUint16 ToUint8 ToFloat64 ToFloat32 ToBool ToBool_body
-      ToInt_body ToInt64_body ToInt32_body ToInt16_body ToInt8_body
-      ToUint_body ToUint64_body ToUint32_body ToUint16_body ToUint8_body
-      ToFloat64_body ToFloat32_body sample bind
-      intToBytes int64ToBytes int32ToBytes int16ToBytes int8ToBytes
-      uintToBytes uint64ToBytes uint32ToBytes uint16ToBytes uint8ToBytes
-      float64ToBytes float32ToBytes boolToBytes
-      intFromBytes int64FromBytes int32FromBytes int16FromBytes int8FromBytes
-      uintFromBytes uint64FromBytes uint32FromBytes uint16FromBytes uint8FromBytes
-      float64FromBytes float32FromBytes boolFromBytes].
+  Ltac unfold_cast := cast_unfold_top; unfold sample.
 
   (* ---- encoding ---- *)
   Lemma encode_le k z :
